@@ -818,3 +818,170 @@ func DiffString(d *core.StateDiff) string {
 	return s
 }
 
+
+func cloneFelts(f []felt.Felt) []felt.Felt {
+	if f == nil {
+		return nil
+	}
+	return append([]felt.Felt{}, f...)
+}
+
+func cloneFP(f *felt.Felt) *felt.Felt {
+	if f == nil {
+		return nil
+	}
+	c := *f
+	return &c
+}
+
+func cloneRB(m map[core.Resource]core.ResourceBounds) map[core.Resource]core.ResourceBounds {
+	if m == nil {
+		return nil
+	}
+	o := map[core.Resource]core.ResourceBounds{}
+	for k, v := range m {
+		v.MaxPricePerUnit = cloneFP(v.MaxPricePerUnit)
+		o[k] = v
+	}
+	return o
+}
+
+func cloneVer(v *core.TransactionVersion) *core.TransactionVersion {
+	if v == nil {
+		return nil
+	}
+	c := *v
+	return &c
+}
+
+// CloneTx deep-copies a transaction.
+func CloneTx(tx core.Transaction) core.Transaction {
+	switch x := tx.(type) {
+	case *core.InvokeTransaction:
+		c := *x
+		c.TransactionHash, c.MaxFee, c.ContractAddress, c.EntryPointSelector, c.Nonce, c.SenderAddress = cloneFP(x.TransactionHash), cloneFP(x.MaxFee), cloneFP(x.ContractAddress), cloneFP(x.EntryPointSelector), cloneFP(x.Nonce), cloneFP(x.SenderAddress)
+		c.CallData, c.TransactionSignature, c.PaymasterData, c.AccountDeploymentData, c.ProofFacts = cloneFelts(x.CallData), cloneFelts(x.TransactionSignature), cloneFelts(x.PaymasterData), cloneFelts(x.AccountDeploymentData), cloneFelts(x.ProofFacts)
+		c.ResourceBounds, c.Version = cloneRB(x.ResourceBounds), cloneVer(x.Version)
+		return &c
+	case *core.DeclareTransaction:
+		c := *x
+		c.TransactionHash, c.ClassHash, c.SenderAddress, c.MaxFee, c.Nonce, c.CompiledClassHash = cloneFP(x.TransactionHash), cloneFP(x.ClassHash), cloneFP(x.SenderAddress), cloneFP(x.MaxFee), cloneFP(x.Nonce), cloneFP(x.CompiledClassHash)
+		c.TransactionSignature, c.PaymasterData, c.AccountDeploymentData = cloneFelts(x.TransactionSignature), cloneFelts(x.PaymasterData), cloneFelts(x.AccountDeploymentData)
+		c.ResourceBounds, c.Version = cloneRB(x.ResourceBounds), cloneVer(x.Version)
+		return &c
+	case *core.DeployAccountTransaction:
+		c := *x
+		c.TransactionHash, c.ContractAddressSalt, c.ContractAddress, c.ClassHash = cloneFP(x.TransactionHash), cloneFP(x.ContractAddressSalt), cloneFP(x.ContractAddress), cloneFP(x.ClassHash)
+		c.ConstructorCallData, c.TransactionSignature, c.PaymasterData = cloneFelts(x.ConstructorCallData), cloneFelts(x.TransactionSignature), cloneFelts(x.PaymasterData)
+		c.MaxFee, c.Nonce = cloneFP(x.MaxFee), cloneFP(x.Nonce)
+		c.ResourceBounds, c.Version = cloneRB(x.ResourceBounds), cloneVer(x.Version)
+		return &c
+	case *core.L1HandlerTransaction:
+		c := *x
+		c.TransactionHash, c.ContractAddress, c.EntryPointSelector, c.Nonce = cloneFP(x.TransactionHash), cloneFP(x.ContractAddress), cloneFP(x.EntryPointSelector), cloneFP(x.Nonce)
+		c.CallData, c.Version = cloneFelts(x.CallData), cloneVer(x.Version)
+		return &c
+	case *core.DeployTransaction:
+		c := *x
+		c.TransactionHash, c.ContractAddressSalt, c.ContractAddress, c.ClassHash = cloneFP(x.TransactionHash), cloneFP(x.ContractAddressSalt), cloneFP(x.ContractAddress), cloneFP(x.ClassHash)
+		c.ConstructorCallData, c.Version = cloneFelts(x.ConstructorCallData), cloneVer(x.Version)
+		return &c
+	}
+	panic("unknown tx type")
+}
+
+func CloneReceipt(r *core.TransactionReceipt) *core.TransactionReceipt {
+	c := *r
+	c.Fee, c.TransactionHash = cloneFP(r.Fee), cloneFP(r.TransactionHash)
+	c.Events = make([]*core.Event, len(r.Events))
+	for i, e := range r.Events {
+		c.Events[i] = &core.Event{From: cloneFP(e.From), Keys: cloneFelts(e.Keys), Data: cloneFelts(e.Data)}
+	}
+	c.L2ToL1Message = make([]*core.L2ToL1Message, len(r.L2ToL1Message))
+	for i, m := range r.L2ToL1Message {
+		c.L2ToL1Message[i] = &core.L2ToL1Message{From: cloneFP(m.From), Payload: cloneFelts(m.Payload), To: m.To}
+	}
+	if r.ExecutionResources != nil {
+		er := *r.ExecutionResources
+		if er.DataAvailability != nil {
+			da := *er.DataAvailability
+			er.DataAvailability = &da
+		}
+		if er.TotalGasConsumed != nil {
+			g := *er.TotalGasConsumed
+			er.TotalGasConsumed = &g
+		}
+		c.ExecutionResources = &er
+	}
+	if r.L1ToL2Message != nil {
+		m := *r.L1ToL2Message
+		m.Nonce, m.Selector, m.To, m.Payload = cloneFP(m.Nonce), cloneFP(m.Selector), cloneFP(m.To), cloneFelts(m.Payload)
+		c.L1ToL2Message = &m
+	}
+	return &c
+}
+
+func cloneFeltMap(m map[felt.Felt]*felt.Felt) map[felt.Felt]*felt.Felt {
+	o := make(map[felt.Felt]*felt.Felt, len(m))
+	for k, v := range m {
+		o[k] = cloneFP(v)
+	}
+	return o
+}
+
+func CloneDiff(d *core.StateDiff) *core.StateDiff {
+	o := core.EmptyStateDiff()
+	for a, kv := range d.StorageDiffs {
+		o.StorageDiffs[a] = cloneFeltMap(kv)
+	}
+	o.Nonces, o.DeployedContracts, o.DeclaredV1Classes, o.ReplacedClasses = cloneFeltMap(d.Nonces), cloneFeltMap(d.DeployedContracts), cloneFeltMap(d.DeclaredV1Classes), cloneFeltMap(d.ReplacedClasses)
+	for _, h := range d.DeclaredV0Classes {
+		o.DeclaredV0Classes = append(o.DeclaredV0Classes, cloneFP(h))
+	}
+	for k, v := range d.MigratedClasses {
+		o.MigratedClasses[k] = v
+	}
+	return &o
+}
+
+// CloneBlock deep-copies everything a node may read from a generated block (class definitions are shared, they are immutable here
+// unless a caller replaces the map entry).
+func CloneBlock(b *Block) *Block {
+	h := *b.B.Header
+	h.Hash, h.ParentHash, h.GlobalStateRoot, h.SequencerAddress = cloneFP(h.Hash), cloneFP(h.ParentHash), cloneFP(h.GlobalStateRoot), cloneFP(h.SequencerAddress)
+	h.L1GasPriceETH, h.L1GasPriceSTRK = cloneFP(h.L1GasPriceETH), cloneFP(h.L1GasPriceSTRK)
+	if h.L1DataGasPrice != nil {
+		h.L1DataGasPrice = &core.GasPrice{PriceInWei: cloneFP(h.L1DataGasPrice.PriceInWei), PriceInFri: cloneFP(h.L1DataGasPrice.PriceInFri)}
+	}
+	if h.L2GasPrice != nil {
+		h.L2GasPrice = &core.GasPrice{PriceInWei: cloneFP(h.L2GasPrice.PriceInWei), PriceInFri: cloneFP(h.L2GasPrice.PriceInFri)}
+	}
+	if h.EventsBloom != nil {
+		h.EventsBloom = h.EventsBloom.Copy()
+	}
+	nb := &Block{B: &core.Block{Header: &h}, Pre: b.Pre, Post: b.Post, Tags: b.Tags, Classes: map[felt.Felt]core.ClassDefinition{}}
+	for _, tx := range b.B.Transactions {
+		nb.B.Transactions = append(nb.B.Transactions, CloneTx(tx))
+	}
+	for _, r := range b.B.Receipts {
+		nb.B.Receipts = append(nb.B.Receipts, CloneReceipt(r))
+	}
+	if nb.B.Transactions == nil {
+		nb.B.Transactions = []core.Transaction{}
+		nb.B.Receipts = []*core.TransactionReceipt{}
+	}
+	for k, v := range b.Classes {
+		nb.Classes[k] = v
+	}
+	nb.SU = &core.StateUpdate{BlockHash: cloneFP(b.SU.BlockHash), NewRoot: cloneFP(b.SU.NewRoot), OldRoot: cloneFP(b.SU.OldRoot), StateDiff: CloneDiff(b.SU.StateDiff)}
+	return nb
+}
+
+// Uniform draws an index in [0,n) with a (nearly) uniform distribution. rapid's IntRange/SampledFrom
+// are deliberately biased towards small values (×4 for the first entries of a 20-element list, far
+// more for long lists), which starves the tail of long tables; the multiplicative mix keeps
+// shrinking meaningful (all-zero bytes → index 0).
+func Uniform(t *rapid.T, n int, label string) int {
+	x := uint32(rapid.Byte().Draw(t, label+"-b0")) | uint32(rapid.Byte().Draw(t, label+"-b1"))<<8 | uint32(rapid.Byte().Draw(t, label+"-b2"))<<16
+	return int((x * 2654435761 >> 8) % uint32(n))
+}
